@@ -374,7 +374,13 @@ Section Oracles.
 
   (** securesystemslib.gpg.functions.verify_signature(signature, key, bytes) for a gpg-shaped key *)
   Definition gpg_verify (sig key : json) (msg : list N) : res bool :=
-    match jstr_of (jget S_keyid sig), jstr_of (jget S_keyid key), jstr_of (jget S_signature sig) with
+    match jstr_of (jget S_keyid sig), jstr_of (jget S_keyid key),
+          (* an OpenPGP signature covers its hashed headers too (hash_object(other_headers, content)):
+             the oracle is asked about the pair "signature:other_headers" *)
+          match jstr_of (jget S_signature sig), jstr_of (jget S_other_headers sig) with
+          | Some sv, Some hdr => Some (sv ++ 58%N :: hdr)
+          | _, _ => None
+          end with
     | Some skid, Some mkid, Some sval =>
         let sel := match jget S_subkeys key with
                    | Some (JDict subs) => match lookup skid subs with Some k => (skid, k) | None => (mkid, key) end
